@@ -19,12 +19,16 @@ func TestVerifDisplay(t *testing.T) {
 	r := rand.New(rand.NewSource(res.Seed))
 	start := time.UnixMilli(1683979200000).UTC()
 	n := res.n(16, 150)
+	headingCalls := -1
 	rp := vReplay("display")
 	if rp != nil {
 		n = 1
 	}
 	for i := 0; i < n; i++ {
 		bs, frames := vStream(r, res.n(40, 200))
+		if i%4 == 3 {
+			bs = vStreamStray(r)
+		}
 		delay := []time.Duration{time.Millisecond, 5 * time.Millisecond, 20 * time.Millisecond}[r.Intn(3)]
 		chunk := 1 + r.Intn(9)
 		if rp != nil {
@@ -41,6 +45,14 @@ func TestVerifDisplay(t *testing.T) {
 		HandleMessages(start, &chunked{data: append([]byte{}, bs...), chunks: []int{4096}}, refW, &cfg)
 		time.Sleep(30 * time.Millisecond)
 		want := refW.snapshot()
+		// what the writer gets besides the messages (the heading): the calls of a run on empty input
+		if headingCalls < 0 {
+			hw := &slowWriter{}
+			HandleMessages(start, &chunked{data: nil, chunks: []int{4096}}, hw, &cfg)
+			time.Sleep(30 * time.Millisecond)
+			headingCalls = hw.callCount()
+		}
+		wantCalls := headingCalls + len(vSegments(bs))
 		w := &slowWriter{delay: delay}
 		failure := ""
 		func() {
@@ -63,6 +75,8 @@ func TestVerifDisplay(t *testing.T) {
 			got := w.snapshot()
 			if !bytes.Equal(got, want) {
 				failure = fmt.Sprintf("at return the writer holds %d of %d bytes (writer latency %v)", len(got), len(want), delay)
+			} else if calls := w.callCount(); calls != wantCalls {
+				failure = fmt.Sprintf("at return the writer has been called %d times; the framing rules cut the input into %d messages (+%d heading writes): a message derived from the input was never written", calls, wantCalls-headingCalls, headingCalls)
 			}
 		}()
 		outcome := "ok"
